@@ -75,6 +75,8 @@ pub struct Case {
     pub summary: String,
     pub nontrivial: bool,
     pub classes: Vec<&'static str>,
+    /// (program that must be rejected: the provider borrows for a caller-chosen 'a; its `'static` twin that must compile)
+    pub static_probe: (String, String),
 }
 
 pub fn gen_case(t: &mut Tape) -> Case {
@@ -210,6 +212,30 @@ pub fn gen_case(t: &mut Tape) -> Case {
             src.push_str("}\n");
         }
     }
+    // `'static` leg: an application that provides the trait but borrows for a caller-chosen 'a (compile probe, see static_leg)
+    let static_probe = {
+        let mut sp = src.clone();
+        match selector {
+            0 | 1 => {
+                sp.push_str(&format!("pub struct BorrowedApp<'a> {{ pub x: &'a u8 }}\nimpl<'a> Sup for BorrowedApp<'a> {{}}\n{at}impl<'a> Tr{targ} for BorrowedApp<'a> {{\n"));
+                for m in &methods {
+                    sp.push_str(&format!("    {} {}\n", m.sig(false).replace("u: U", u_impl), m.body()));
+                }
+                sp.push_str("}\n");
+            }
+            _ => {
+                let (tr, f) = if selector == 2 { ("AsRef", "as_ref") } else { ("::core::borrow::Borrow", "borrow") };
+                sp.push_str(&format!(
+                    "pub struct BorrowedApp<'a> {{ pub rec: Rec, pub x: &'a u8 }}\nimpl<'a> {tr}<{dyn_ty}> for BorrowedApp<'a> {{ fn {f}(&self) -> &({dyn_ty} + 'static) {{ &self.rec }} }}\n"
+                ));
+            }
+        }
+        let mk = if selector <= 1 { "BorrowedApp { x }" } else { "BorrowedApp { rec: Rec { pad: 1, f: () }, x }" };
+        sp.push_str(&format!("fn needs<T: Tr{targ}>(_: &T) {{}}\n"));
+        let neg = format!("{sp}pub fn probe<'a>(x: &'a u8) {{ let app = ::entrait::Impl::new({mk}); needs(&app); }}\npub fn run() -> Vec<String> {{ vec![] }}\n");
+        let pos = format!("{sp}pub fn probe(x: &'static u8) {{ let app = ::entrait::Impl::new({mk}); needs(&app); }}\npub fn run() -> Vec<String> {{ vec![] }}\n");
+        (neg, pos)
+    };
     src.push_str(&format!(
         "struct Probe<T>(PhantomData<T>);\ntrait Fallback {{ fn has(&self) -> bool {{ false }} }}\nimpl<T> Fallback for Probe<T> {{}}\nimpl<T: Tr{targ}> Probe<T> {{ fn has(&self) -> bool {{ true }} }}\n"
     ));
@@ -265,7 +291,7 @@ pub fn gen_case(t: &mut Tape) -> Case {
     }
     let summary = format!("#[entrait({attr})] {}trait Tr{tg}{sup_src} {{ {} }}", at.trim(), methods.iter().map(|m| m.sig(false)).collect::<Vec<_>>().join("; "));
     let twin: String = src.lines().filter(|l| !l.starts_with("/*GEN*/")).collect::<Vec<_>>().join("\n");
-    Case { src, twin, summary, nontrivial: same_sig || same_typed || generic || dynamic, classes }
+    Case { src, twin, summary, nontrivial: same_sig || same_typed || generic || dynamic, classes, static_probe }
 }
 
 fn run_single(name: &str, src: &str) -> Result<(String, String), String> {
@@ -285,7 +311,7 @@ pub fn run(ctx: &mut Ctx) {
     ctx.rule = "cases = hand-written-style traits with 1..5 `&self` methods (repeated signatures, adjacent equal types, generic trait parameter, generic methods for static selectors, \
                 supertraits, wildcard parameters, &mut arguments, sync/async with and without async_trait) x selector {default, Self, ref, Borrow} x options; a recording provider logs \
                 (method tag, provider address, arguments); each method is called on the provider and through Impl<App> with distinct argument values and results/traces are compared; \
-                probes: Impl<App> implements the trait, Impl<NoProvider> and Impl<!Sync app> do not; non-trivial = >=2 same-signature methods, >=2 same-typed args, generic, or ref/Borrow; \
+                probes: Impl<App> implements the trait, Impl<NoProvider> and Impl<!Sync app> do not, Impl<Sync + !Send app> does, and (compile probe on the first 160 / 800 cases) Impl<app borrowing for 'a> does not; non-trivial = >=2 same-signature methods, >=2 same-typed args, generic, or ref/Borrow; \
                 distinct = distinct program text"
         .into();
     ctx.assumptions.push("don't-care: whether an async + `ref` trait additionally needs `T: Send` (not probed)".into());
@@ -326,6 +352,9 @@ pub fn run(ctx: &mut Ctx) {
         );
         return;
     }
+    if !static_leg(ctx, &cases) {
+        return;
+    }
     // programs that do not compile are judged only after the runnable ones (a broken tree often breaks both)
     let failed: Vec<(String, String, String, String)> = out
         .compile_failed
@@ -342,8 +371,63 @@ pub fn run(ctx: &mut Ctx) {
     }
 }
 
+/// `'static`: `Impl<BorrowedApp<'a>>: Tr` must be rejected for a caller-chosen 'a although `BorrowedApp<'a>` provides the trait
+/// in the selected way; the twin with `'static` must compile, otherwise nothing is concluded from the probe
+fn static_leg(ctx: &mut Ctx, cases: &[Case]) -> bool {
+    let k = if ctx.quick() { 160 } else { 800 }.min(cases.len());
+    let mut batch = Batch::new("c06-static", Opts { feature_unimock: false, members: 16, check_only: true, ..Default::default() });
+    for (i, c) in cases.iter().take(k).enumerate() {
+        batch.add(&format!("n{i:05}"), c.static_probe.0.clone());
+        batch.add(&format!("p{i:05}"), c.static_probe.1.clone());
+    }
+    let out = batch.build_and_run();
+    batch.cleanup();
+    for (i, c) in cases.iter().take(k).enumerate() {
+        let (nid, pid) = (format!("n{i:05}"), format!("p{i:05}"));
+        if out.compile_failed.contains_key(&pid) {
+            ctx.class("static_probe:twin_does_not_compile");
+            continue;
+        }
+        ctx.count_eval();
+        match out.compile_failed.get(&nid) {
+            Some(d) => {
+                let lifetime = d.iter().any(|x| ["E0521", "E0597", "E0759", "E0477", "E0310", "E0311", "E0716"].contains(&x.code.as_str()) || x.message.contains("lifetime") || x.message.contains("borrowed data escapes") || x.message.contains("does not live long enough"));
+                if !lifetime {
+                    crate::ev::inconclusive(&format!("'static probe failed with an unrelated error: {} -- {}", d.first().map(|x| x.rendered.clone()).unwrap_or_default(), c.summary));
+                }
+                ctx.class("static_probe:non_static_app_rejected");
+            }
+            None => {
+                let mut b = Batch::new("c06-static-single", Opts { feature_unimock: false, members: 1, check_only: true, ..Default::default() });
+                b.add("c00000", c.static_probe.0.clone());
+                let o = b.build_and_run();
+                b.cleanup();
+                if o.compile_failed.is_empty() {
+                    ctx.violation(
+                        &format!("Impl<T> implements the trait for a T that is not `'static` (`Impl<BorrowedApp<'a>>: Tr` accepted for a caller-chosen 'a) -- in {}", c.summary),
+                        &json!({"engine": "E2", "kind": "static", "src": c.static_probe.0, "summary": c.summary}),
+                    );
+                    return false;
+                }
+                ctx.class("static_probe:non_static_app_rejected");
+            }
+        }
+    }
+    true
+}
+
 pub fn replay(ctx: &mut Ctx, v: &Value) {
     ctx.count_eval();
+    if super::s(v, "kind") == "static" {
+        let mut b = Batch::new("c06-static-replay", Opts { feature_unimock: false, members: 1, check_only: true, ..Default::default() });
+        b.add("c00000", super::s(v, "src"));
+        let o = b.build_and_run();
+        b.cleanup();
+        if o.compile_failed.is_empty() {
+            ctx.violation("Impl<T> implements the trait for a T that is not `'static`", v);
+        }
+        return;
+    }
     match run_single("c06-replay", &super::s(v, "src")) {
         Err(e) => {
             if super::s(v, "expect") == "compiles" {
